@@ -53,6 +53,12 @@ func (e errInvalidGroupOption) Format(w fmt.State, c rune) {
 func parseGroupString(s string) (group, error) {
 	components := strings.Split(s, ",")
 	g := group{Name: components[0]}
+	if g.Name == "" {
+		// A group without a name would share its key with the unnamed
+		// value of the same type.
+		return g, newErrInvalidInput(
+			fmt.Sprintf("invalid group %q: group names cannot be empty", s), nil)
+	}
 	for _, c := range components[1:] {
 		switch c {
 		case "flatten":
